@@ -53,6 +53,7 @@ def run(ck):
     look = repr(-p_ - 1)
     combos = [("metric", "relative"), ("metric", "absolute"), ("observable", "relative"), ("observable", "absolute"), ("observable", "variance"),
               ("metric", " Relative "), ("observable", "VARIANCE")]
+    _second_run(ck, prog, osite, p_)
     for evk, crit in combos:
         inst = "%s/%s" % (evk, crit.strip().lower() if crit.strip() != crit or crit.lower() != crit else crit)
         if crit != crit.strip().lower():
@@ -229,6 +230,55 @@ def _c(p):
 def _is_cmp(t):
     at = t.single_atom()
     return at is not None and isinstance(at, T.App) and at.op.startswith("cmp_")
+
+
+def _second_run(ck, prog, osite, p_):
+    """The stopper and its evaluator are reused for a second run (clear_history(), then new evaluations): at a checked epoch of
+    the second run with more than p evaluations recorded, the criterion is evaluated on the *current* history again."""
+    for evk, crit in (("metric", "relative"), ("observable", "variance")):
+        inst = "%s/%s, second run after clear_history()" % (evk, crit)
+        with ck.guard("C18.R1", inst, osite):
+            def th(it, evk=evk, crit=crit):
+                cb, ev = make_es(it, prog, evk, crit)
+                st = make_state(it, "PositiveWaveFunction")
+                call(it, cb, "on_epoch_end", st, epoch())
+                # the evaluator starts over: clear_history(), then a new run records other values (another list, another length)
+                call(it, ev, "clear_history")
+                ev.inst.attrs["past_values"] = it.new_list(None)
+                n0, c0 = len(it.calls), len(it.conds)
+                call(it, cb, "on_epoch_end", st, VNum("int", T.sym("epoch2"), nonneg=True))
+                return n0, c0
+
+            for p in [q for q in paths_of(prog, th, max_paths=160, sticky="term", stubs=STUBS) if q.outcome == "return"]:
+                n0, c0 = p.value
+                gv2 = [c for c in p.calls[n0:] if c[0].endswith(".get_value")]
+                conds2 = p.conds[c0:]
+                g2 = []
+                for c in conds2:
+                    t = getattr(c[3] if len(c) > 3 else None, "term", None)
+                    if t is not None and t == T.app("cmp_Eq", T.app("mod", T.sym("epoch2"), T.sym("period")), T.ZERO):
+                        g2.append(c[2])
+                    elif t is not None and t == T.app("cmp_NotEq", T.app("mod", T.sym("epoch2"), T.sym("period")), T.ZERO):
+                        g2.append(not c[2])
+                lens2 = set()
+                for c in conds2:
+                    t = getattr(c[3] if len(c) > 3 else None, "term", None)
+                    if t is not None:
+                        lens2 |= {s_ for s_ in t.syms() if s_.startswith("len(")}
+                enough = any(ints.positive_on_path(T.sym(s_) - p_, {}, conds2) is True for s_ in lens2)
+                # the length of the history the evaluator holds *now* (the list installed after clear_history())
+                cur_len = {s_ for s_ in lens2 if s_ != "len(VList)"}
+                vs_patience = [c for c in conds2 if getattr(c[3] if len(c) > 3 else None, "term", None) is not None
+                               and (c[3].term.syms() & cur_len) and "p" in c[3].term.syms()]
+                if g2 and g2[0] is True and not gv2 and cur_len and not vs_patience:
+                    # the call decided without ever comparing the current history's length with the patience and without reading a
+                    # value: for the histories with more than p evaluations that this path admits, nothing was evaluated
+                    enough = True
+                if g2 and g2[0] is True and enough:
+                    ck.check(bool(gv2), "C18.R1", inst + ":the criterion is evaluated on the current history [%s]" % _c(p), osite,
+                             "in the second run, on a multiple of the period with more than p evaluations recorded, on_epoch_end decides without reading the evaluator's current values "
+                             "(a deviation kept from the first run decides): path conditions %s" % ", ".join("%s=%s" % (c[1][:40], c[2]) for c in conds2)[:240],
+                             key="C18.R1|EarlyStopping|stale deviation")
 
 
 def _len_syms(p):
